@@ -98,6 +98,7 @@ def analyse_stores(ctx, fv: FV) -> List[Store]:
                 if other != nid and other in fv.cfg.reaching_to(nid, blocked) and (st.loop_head is None or other in fv.cfg.loop_body.get(st.loop_head, ())):
                     st.stale_writes.append(other)
             st._opaque = opaque  # type: ignore[attr-defined]
+            st._old_key = old_key  # type: ignore[attr-defined]
     return out
 
 
@@ -156,7 +157,15 @@ def limit_guard(ctx, fv: FV, st: Store, kind: str):
         if c is None:
             continue
         if c == expected:
-            return {"status": "match", "branch": branch, "polarity": pol, "atom": atom, "canon": c.pretty()}
+            # float-exactness: the comparison must be <the very value that is stored> against <the limit itself>;
+            # an algebraic rearrangement (volume > max - old) rounds differently and lets one-ulp overshoots through
+            sides = [r.left, r.comparators[0]]
+            lim_k = key(ast.Attribute(value=ast.Name(id=selfname, ctx=ast.Load()), attr=limit_attr, ctx=ast.Load()))
+            old_k = getattr(st, "_old_key", None)
+            exact = st.new_term is not None and any(
+                key(a) == lim_k and float_key(b, old_k) == float_key(st.new_term, old_k) for a, b in (sides, sides[::-1]))
+            return {"status": "match" if exact else "inexact", "branch": branch, "polarity": pol, "atom": atom, "canon": c.pretty(),
+                    "expected": expected.pretty()}
         syms = set(c.poly.symbols())
         if set(limit.symbols()) & syms or key(OLD) in syms:
             near.append((c, atom, pol, branch))
@@ -164,3 +173,18 @@ def limit_guard(ctx, fv: FV, st: Store, kind: str):
         c, atom, pol, branch = near[0]
         return {"status": "different", "branch": branch, "polarity": pol, "atom": atom, "canon": c.pretty(), "expected": expected.pretty()}
     return {"status": "missing", "expected": expected.pretty()}
+
+
+def float_key(t: ast.AST, old_key: Optional[str]) -> str:
+    """Structural key of a float computation: equal keys <=> the same IEEE operations on the same operands
+    (operands of a single + or * may be swapped; nothing is re-associated or moved across the comparison)."""
+    if old_key is not None and key(t) == old_key:
+        return key(OLD)
+    if isinstance(t, ast.BinOp):
+        a, b = float_key(t.left, old_key), float_key(t.right, old_key)
+        if isinstance(t.op, (ast.Add, ast.Mult)) and b < a:
+            a, b = b, a
+        return f"({a} {type(t.op).__name__} {b})"
+    if isinstance(t, ast.UnaryOp):
+        return f"({type(t.op).__name__} {float_key(t.operand, old_key)})"
+    return key(t)
